@@ -52,19 +52,14 @@ func ruleXRefCompleteness(c *core.Ctx) {
 		fn := c.Prog.Func("pdf", "(*Writer).writeXRefStream")
 		g := fn.Graph()
 		info := fn.Info()
-		heads := loopHeads(g)
-		if len(heads) < 2 {
-			core.Undecided("writing loop not found")
-		}
-		head := heads[1]
-		entry := localVar(fn, "entry", 1)
-		// the edge entry == nil leads to WriteByte(0)
+		_, head := xrefStreamLoops(g)
+		// the edge entry == nil (the entry is whatever *xRefEntry value the row loop tests) leads to WriteByte(0)
 		var nilEdge []core.EdgeRef
 		for _, bv := range g.BranchVertices() {
 			for _, l := range []core.EdgeLabel{core.EdgeTrue, core.EdgeFalse} {
 				for _, a := range bv.Implied(l) {
 					cmp, ok := a.AsCmp()
-					if ok && cmp.Op == token.EQL && core.ObjOf(info, cmp.L) == entry && core.IsNil(info, cmp.R) {
+					if ok && cmp.Op == token.EQL && core.IsNamed(info.TypeOf(cmp.L), "pdf", "xRefEntry") && core.IsNil(info, cmp.R) {
 						if g.ReachFrom(succ(head, core.EdgeTrue), true, core.AvoidVs(head))[bv] {
 							nilEdge = append(nilEdge, core.EdgeRef{From: bv, Label: l})
 						}
@@ -85,8 +80,10 @@ func ruleXRefCompleteness(c *core.Ctx) {
 			}
 			for _, cs := range core.CallsIn(info, v.AST, false) {
 				if strings.HasSuffix(cs.Key, ".WriteByte") {
-					if k, isK := core.IntConst(info, cs.Call.Args[0]); isK && k == 0 && g.EdgeDominates(v, nilEdge...) {
-						ok = true
+					for _, vc := range valueCases(g, v, cs.Call.Args[0], 2) {
+						if k, isK := core.IntConst(info, vc.Expr); isK && k == 0 && g.EdgeDominates(vc.V, nilEdge...) {
+							ok = true
+						}
 					}
 				}
 			}
@@ -109,17 +106,14 @@ func ruleXRefCompleteness(c *core.Ctx) {
 		fn := c.Prog.Func("pdf", "(*Writer).writeXRefStream")
 		g := fn.Graph()
 		info := fn.Info()
-		heads := loopHeads(g)
-		if len(heads) < 2 {
-			core.Undecided("writing loop not found")
-		}
-		head := heads[1]
+		_, head := xrefStreamLoops(g)
 		body := g.ReachFrom(succ(head, core.EdgeTrue), true, core.AvoidVs(head))
-		// per type byte value: the expressions passed with w2 and w3
-		type row struct{ f2, f3 string }
+		// per type byte value: the expressions passed as second and third field
+		type row struct {
+			f2, f3 string
+			at     *core.V
+		}
 		rows := map[int64][]row{}
-		w2 := localVar(fn, "w2", 0)
-		w3 := localVar(fn, "w3", 0)
 		errE := errNotNilEdges(g)
 		for v := range body {
 			if v.AST == nil {
@@ -129,45 +123,61 @@ func ruleXRefCompleteness(c *core.Ctx) {
 				if !strings.HasSuffix(cs.Key, ".WriteByte") {
 					continue
 				}
-				k, ok := core.IntConst(info, cs.Call.Args[0])
-				if !ok {
-					continue
-				}
-				// the next two encodeInt64 calls on the error-free path
-				var r row
-				cur := v
-				for step := 0; step < 2; step++ {
-					var next *core.V
-					reach := g.ReachFrom(cur, false, core.AvoidEdges(errE...).With(head))
-					for x := range reach {
-						if x.AST == nil {
-							continue
+				for _, tc := range valueCases(g, v, cs.Call.Args[0], 2) {
+					k, ok := core.IntConst(info, tc.Expr)
+					if !ok {
+						continue
+					}
+					// the next two encodeInt64 calls on the error-free path
+					r := row{at: tc.V}
+					field := 0
+					cur := v
+					for step := 0; step < 2; step++ {
+						var next *core.V
+						reach := g.ReachFrom(cur, false, core.AvoidEdges(errE...).With(head))
+						var cands []*core.V
+						for x := range reach {
+							if x.AST != nil && len(core.CallsTo(info, x.AST, false, "pdf.encodeInt64")) > 0 {
+								cands = append(cands, x)
+							}
 						}
-						for _, c2 := range core.CallsIn(info, x.AST, false) {
+						// the earliest in execution order: not reachable from another candidate
+						for _, x := range cands {
+							earliest := true
+							for _, y := range cands {
+								if y != x && g.ReachFrom(y, false, core.AvoidEdges(errE...).With(head))[x] {
+									earliest = false
+								}
+							}
+							if earliest {
+								next = x
+							}
+						}
+						if next == nil {
+							break
+						}
+						for _, c2 := range core.CallsIn(info, next.AST, false) {
 							if c2.Key == "pdf.encodeInt64" {
-								if next == nil || x.AST.Pos() < next.AST.Pos() {
-									next = x
+								// the value chosen together with the type byte (same definition), else as written
+								val := core.ExprStr(c2.Call.Args[1])
+								for _, fc := range valueCases(g, next, c2.Call.Args[1], 2) {
+									if fc.V == tc.V {
+										val = core.ExprStr(fc.Expr)
+									}
+								}
+								field++
+								if field == 1 {
+									r.f2 = val
+								} else {
+									r.f3 = val
 								}
 							}
 						}
+						cur = next
 					}
-					if next == nil {
-						break
-					}
-					for _, c2 := range core.CallsIn(info, next.AST, false) {
-						if c2.Key == "pdf.encodeInt64" {
-							switch core.ObjOf(info, c2.Call.Args[2]) {
-							case w2:
-								r.f2 = core.ExprStr(c2.Call.Args[1])
-							case w3:
-								r.f3 = core.ExprStr(c2.Call.Args[1])
-							}
-						}
-					}
-					cur = next
+					rows[k] = append(rows[k], r)
+					o.At(fn.Site(cs.Call, "row type "+itoa(int(k))+" f2="+r.f2+" f3="+r.f3))
 				}
-				rows[k] = append(rows[k], r)
-				o.At(fn.Site(cs.Call, "row type "+itoa(int(k))+" f2="+r.f2+" f3="+r.f3))
 			}
 		}
 		for _, r := range rows[1] {
@@ -181,15 +191,9 @@ func ruleXRefCompleteness(c *core.Ctx) {
 		}
 		o.Require(len(rows[0]) >= 1 && len(rows[1]) == 1 && len(rows[2]) == 1, "expected rows of types 0, 1 and 2, got %d/%d/%d", len(rows[0]), len(rows[1]), len(rows[2]))
 		// selection conditions
-		for v := range body {
-			if v.AST == nil {
-				continue
-			}
-			for _, cs := range core.CallsIn(info, v.AST, false) {
-				if !strings.HasSuffix(cs.Key, ".WriteByte") {
-					continue
-				}
-				k, _ := core.IntConst(info, cs.Call.Args[0])
+		for k, rs := range rows {
+			for _, r := range rs {
+				v := r.at
 				switch k {
 				case 1:
 					ok := g.GuardedBy(v, func(a core.Atom) bool {
@@ -676,8 +680,9 @@ func ruleXRefWidthAgreement(c *core.Ctx) {
 	g := fn.Graph()
 	info := fn.Info()
 	type emission struct {
-		v     *core.V
+		v     *core.V // where the value is chosen: its dominating facts are the emission's condition
 		call  *ast.CallExpr
+		val   ast.Expr
 		typ   int64
 		width types.Object
 	}
@@ -686,19 +691,37 @@ func ruleXRefWidthAgreement(c *core.Ctx) {
 		if len(cv.Call.Args) != 3 {
 			continue
 		}
-		if _, isConst := core.IntConst(info, cv.Call.Args[1]); isConst {
-			continue
-		}
 		w := core.ObjOf(info, cv.Call.Args[2])
-		typ := int64(-1)
-		for _, wb := range callVerticesSuffix(g, ".WriteByte") {
-			if len(wb.Call.Args) == 1 && g.Dominates(wb.V, cv.V) && wb.V != cv.V {
-				if k, ok := core.IntConst(info, wb.Call.Args[0]); ok {
-					typ = k
+		for _, vc := range valueCases(g, cv.V, cv.Call.Args[1], 2) {
+			if _, isConst := core.IntConst(info, vc.Expr); isConst {
+				continue
+			}
+			site := vc.V
+			if !g.Dominates(cv.V, site) && !g.Dominates(site, cv.V) {
+				site = cv.V
+			}
+			// the type byte of the row: written before the field, as a literal
+			// or chosen together with the value
+			typ := int64(-1)
+			for _, wb := range callVerticesSuffix(g, ".WriteByte") {
+				if len(wb.Call.Args) != 1 || !g.Dominates(wb.V, cv.V) || wb.V == cv.V {
+					continue
+				}
+				for _, tc := range valueCases(g, wb.V, wb.Call.Args[0], 2) {
+					k, ok := core.IntConst(info, tc.Expr)
+					if !ok {
+						continue
+					}
+					if tc.V == vc.V || (tc.V == wb.V && vc.V == cv.V) {
+						typ = k
+					}
 				}
 			}
+			if vc.V != cv.V {
+				site = vc.V
+			}
+			ems = append(ems, emission{site, cv.Call, vc.Expr, typ, w})
 		}
-		ems = append(ems, emission{cv.V, cv.Call, typ, w})
 	}
 	c.Floor(rule, 4)
 	inUse := 0
@@ -708,7 +731,7 @@ func ruleXRefWidthAgreement(c *core.Ctx) {
 			continue
 		}
 		inUse++
-		key := fn.Key + "/type" + strconv.FormatInt(em.typ, 10) + "/" + c.Prog.Src(stripConv(info, em.call.Args[1]))
+		key := fn.Key + "/type" + strconv.FormatInt(em.typ, 10) + "/" + c.Prog.Src(stripConv(info, em.val))
 		c.Check(rule, key, "the value emitted into a column of an in-use row was counted, under the same condition, when the column width was computed", func(o *core.Ob) {
 			o.At(fn.Site(em.call, "emission"))
 			if em.width == nil {
@@ -732,7 +755,7 @@ func ruleXRefWidthAgreement(c *core.Ctx) {
 			if maxVar == nil {
 				core.Undecided("argument of bits.Len64 is not a variable")
 			}
-			o.Require(g.Dominates(wdefs[0], em.v), "the width is computed before the rows are written")
+			o.Require(g.Dominates(wdefs[0], g.MustVertexOf(em.call)), "the width is computed before the rows are written")
 			// updates of the maximum: maxVar = F guarded by F > maxVar
 			var cands []struct {
 				upd *core.V
@@ -786,7 +809,7 @@ func ruleXRefWidthAgreement(c *core.Ctx) {
 			if len(cands) == 0 {
 				core.Undecided("no update of %s found", maxVar.Name())
 			}
-			want := stripConv(info, em.call.Args[1])
+			want := stripConv(info, em.val)
 			// The two passes are separate loops over the same table: identify
 			// the loop variables (same for-clause) and the entry variables
 			// (same definition) of the two loops.
@@ -795,13 +818,7 @@ func ruleXRefWidthAgreement(c *core.Ctx) {
 			loopSig := ""
 			canon := func(v *core.V, tag string) *core.V {
 				// enclosing for statement of v
-				var loop *ast.ForStmt
-				ast.Inspect(fn.Decl, func(n ast.Node) bool {
-					if fs, ok := n.(*ast.ForStmt); ok && v.AST != nil && fs.Pos() <= v.AST.Pos() && v.AST.End() <= fs.End() {
-						loop = fs
-					}
-					return true
-				})
+				loop := enclosingFor(fn.Decl, v.AST)
 				if loop == nil || loop.Init == nil || loop.Cond == nil || loop.Post == nil {
 					core.Undecided("%s is not inside a three-clause for loop", tag)
 				}
@@ -817,13 +834,21 @@ func ruleXRefWidthAgreement(c *core.Ctx) {
 				loopSig = sig
 				subst[iv] = &ast.Ident{Name: as.Lhs[0].(*ast.Ident).Name}
 				// variables defined in the loop body from the loop variable only
-				for _, st := range loop.Body.List {
-					if a, ok := st.(*ast.AssignStmt); ok && a.Tok == token.DEFINE && len(a.Lhs) == 1 && len(a.Rhs) == 1 {
+				// (anywhere in the body: the binding of an inlined helper's
+				// parameter sits in a nested block)
+				ast.Inspect(loop.Body, func(n ast.Node) bool {
+					if _, isLit := n.(*ast.FuncLit); isLit {
+						return false
+					}
+					if a, ok := n.(*ast.AssignStmt); ok && a.Tok == token.DEFINE && len(a.Lhs) == 1 && len(a.Rhs) == 1 {
 						if ix, ok := a.Rhs[0].(*ast.IndexExpr); ok && core.ObjOf(info, ix.Index) == iv {
-							subst[core.ObjOf(info, a.Lhs[0])] = &ast.Ident{Name: c.Prog.Src(a.Rhs[0])}
+							if lo := core.ObjOf(info, a.Lhs[0]); lo != nil && len(defVertices(g, lo)) == 1 {
+								subst[lo] = &ast.Ident{Name: c.Prog.Src(a.Rhs[0])}
+							}
 						}
 					}
-				}
+					return true
+				})
 				if len(loop.Body.List) == 0 {
 					core.Undecided("%s: empty loop body", tag)
 				}
